@@ -476,8 +476,10 @@ def run(ck):
             okc = isinstance(arg, ast.Call) and call_name(arg) in ('np.clip', 'numpy.clip') and len(arg.args) == 3 and try_fold(arg.args[1], default=None) == -1 and try_fold(arg.args[2], default=None) == 1
             ck.ob('BND-cosine', geo.loc(c_), okc, '{}: the argument of the arc cosine is clipped to [-1, 1] (`{}`)'.format(gname, u(arg)[:80] if arg is not None else '?'),
                   key='BND-cosine|' + gname)
-    from .c13 import section_key_rule
+    from .c13 import section_key_rule, prefix_order_table
     section_key_rule(ck)
+    # which atom a link line names (key prefix, order, atom name) decides where the link fits: C13's interpreted table of _treat_atom_prefix / _split_node_key
+    prefix_order_table(ck, ck.index.mod('vermouth/ffinput.py'))
     shared.truthy_zero(ck, [DL])
     shared.runs_every_molecule(ck, 'vermouth/processors/do_links.py', 'DoLinks', 'MPT-every-molecule')
     ck.assume('induced-ness and completeness of the networkx matcher, and "no unjustified interaction", are not decided')
